@@ -23,8 +23,8 @@ and returns EXACTLY `S`, when
 * `sd.hb`    whatever provides a member's name is a non-member of that name                     (not F09b),
 * `sd.hh`    a dependency with a version text names nothing a member provides with a version    (not F09h),
 * `sd.noConf` no `!x` dependency of a member names something a member carries                   (not F09f),
-* `sd.hv`    two different members provide one name only without versions,
-* `sd.hd`    no member provides one name twice,
+* `sd.hv`    two different members provide one name only without versions                       (not F09o),
+* `sd.hself`, `sd.hd`  no member provides its own name, or a name again after a versioned provide (not F09m),
 * `sd.order` the provider order of `nameMap` knows every member's name (true for `ownNames`, the driver's order).
 Proof: the invariant of `relock_succeeds_partial`, with "the pick is a member" now from `compare_prefers_existing` /
 `minFunc_prefers` (every member is in `existing` with its version; a non-member carrying a member's name is
@@ -222,6 +222,29 @@ theorem F09n_needed :
   ⟨by decide, by decide, by decide, by decide, pctx_of (by decide), by decide, strongLock_of (by decide), by decide,
     by decide, by decide, by decide, by decide, by decide⟩
 
+def o9z := pv9 0 "z" "1" ["!a>=2", "!b>=2"] []
+def o9a2 := pv9 1 "a" "2" [] []
+def o9a1 := pv9 2 "a" "1" [] ["v=1"]
+def o9b2 := pv9 3 "b" "2" [] []
+def o9b1 := pv9 4 "b" "1" [] ["v=1"]
+def cfg9o : Cfg := mkCfg [⟨[], "r-".toList, [o9z, o9a2, o9a1, o9b2, o9b1]⟩]
+def lock9o : List Text := ["a=1".toList, "b=1".toList, "z=1".toList]
+
+set_option maxRecDepth 100000 in
+/-- `hv` (not F09o) is needed: a-1 and b-1 both provide `v=1`.  `[z, a, b]`: the first loop picks a-2 and b-2; z's
+conflicts `!a>=2`, `!b>=2` then disqualify them, and the second loop re-picks a-1 and b-1 — without
+`disqualifyConflicts`, so neither disqualifies the other.  The resolution {z, a-1, b-1} is valid.  In its lock the first
+loop picks a-1, which disqualifies b-1: `b=1` has no candidate.  Every other hypothesis holds. -/
+theorem F09o_needed :
+    installOf (resolve cfg9o ["z".toList, "a".toList, "b".toList] []) = some [o9z, o9a1, o9b1] ∧
+    validB cfg9o.u ["z".toList, "a".toList, "b".toList] [o9z, o9a1, o9b1] = true ∧
+    relockClass cfg9o.u ["z".toList, "a".toList, "b".toList] [o9z, o9a1, o9b1] = "F09o" ∧
+    PCtx cfg9o [o9z, o9a1, o9b1] ∧ hypUniq cfg9o [o9z, o9a1, o9b1] ∧ StrongLock [o9z, o9a1, o9b1] lock9o ∧
+    PSideB1 cfg9o [o9z, o9a1, o9b1] ∧ PSideB2 cfg9o [o9z, o9a1, o9b1] ∧ hypSelf [o9z, o9a1, o9b1] ∧ hypD [o9z, o9a1, o9b1] ∧
+    ¬ hypV [o9z, o9a1, o9b1] ∧ installOf (resolve cfg9o lock9o []) = none :=
+  ⟨by decide, by decide, by decide, pctx_of (by decide), by decide, strongLock_of (by decide), by decide, by decide,
+    by decide, by decide, by decide, by decide⟩
+
 theorem provTwice_false : ∀ (l : List Text), provTwice l = false →
     l.Pairwise (fun a b => (parseConstraint a).version ≠ [] → provName a ≠ provName b) := by
   intro l
@@ -266,18 +289,14 @@ theorem sat_dep_parses {q : Pkg} {d : Text} (hsat : sat q d = true) (hany : (par
 ANY universe with distinct ids — provides included — whose class is `unlisted` (no pin lost, valid original without
 violated conflict, parsable versions, nobody provides a member's name, no versioned dependency on a provided name,
 no install_if, unique (name, version), no junk version text), the lock `unify` emits re-resolves to exactly
-`r.install`, PROVIDED `hv` (two different members provide one name only without versions) and `horder` (the provider
-order knows the members; true for the driver's `ownNames`).  The class list this theorem is stated for includes F09l,
-F09m (a member provides its own name, or a name twice) and F09n (a `!x` dependency reaches a member through the loose
-candidate filter of `disqualifyProviders`): all three were found as unprovable cases of this theorem and replayed on
-the real code.  What separates it from `RelockClassesComplete` is `hv` alone: either "the original resolution
-succeeded" implies it (picking a provider disqualifies every other versioned provider of the name, in both
-directions) — then the classifier is complete — or it is one more finding class; open, and searched by the provides
-families of the suite on every run. -/
+`r.install`, PROVIDED `horder` (the provider order knows the members; true for the driver's `ownNames` and for Go's
+map).  The class list this theorem is stated for includes F09l, F09m (a member provides its own name, or a name twice),
+F09n (a `!x` dependency reaches a member through the loose candidate filter of `disqualifyProviders`) and F09o (two
+members provide one name, one of them with a version): all four were found as unprovable cases of this theorem and
+replayed on the real code. -/
 theorem relock_unlisted_exact_provides_partial (c : Cfg) (w : List Text) (dq0 : List Nat) (r : Resolution)
     (hres : resolve c w dq0 = .ok r) (hids : C02.IdsDistinct c.u)
     (hread : EntriesReadBack w r.install) (horder : ∀ q ∈ r.install, q.name ∈ c.order)
-    (hv : hypV r.install)
     (hcls : relockClass c.u w r.install = "unlisted") :
     ∃ r', resolve c (lockOf w r.install) [] = .ok r' ∧ sameMembers r'.install r.install := by
   unfold relockClass at hcls
@@ -301,6 +320,26 @@ theorem relock_unlisted_exact_provides_partial (c : Cfg) (w : List Text) (dq0 : 
   next hselfc =>
   split at hcls; · exact absurd hcls (by decide)
   next hhits =>
+  split at hcls; · exact absurd hcls (by decide)
+  next htwo =>
+  have hv : hypV r.install := by
+    intro m1 hm1 m2 hm2 hne pr1 hpr1 pr2 hpr2 hn
+    apply Classical.byContradiction
+    intro hnot
+    apply htwo
+    unfold twoMembersProvideVersioned
+    rw [List.any_eq_true]; refine ⟨m1, hm1, ?_⟩
+    rw [List.any_eq_true]; refine ⟨m2, hm2, ?_⟩
+    rw [Bool.and_eq_true]; refine ⟨by simpa using hne, ?_⟩
+    rw [List.any_eq_true]; refine ⟨pr1, hpr1, ?_⟩
+    rw [List.any_eq_true]; refine ⟨pr2, hpr2, ?_⟩
+    simp only [Bool.and_eq_true, decide_eq_true_eq, Bool.not_eq_true', Bool.and_eq_false_iff, List.isEmpty_eq_false_iff]
+    refine ⟨hn, ?_⟩
+    by_cases h1 : (parseConstraint pr1).version = []
+    · by_cases h2 : (parseConstraint pr2).version = []
+      · exact absurd ⟨h1, h2⟩ hnot
+      · exact Or.inr h2
+    · exact Or.inl h1
   simp only [invalidOriginal, Bool.or_eq_true, Bool.not_eq_true', not_or, Bool.not_eq_true] at hinv
   obtain ⟨hvalid, _⟩ := hinv
   have hvalid2 : validB c.u w r.install = true := by
@@ -491,14 +530,25 @@ theorem ownNames_knows (u : Universe) (p : Pkg) (hp : p ∈ u.all) : p.name ∈ 
   exact List.mem_map.mpr ⟨p, hp, rfl⟩
 
 /-- T `relock_unlisted_exact_provides_driver_partial`: `relock_unlisted_exact_provides_partial` for the configuration the
-driver evaluates (`order = ownNames`): the only hypotheses left besides `unlisted` are distinct ids, the read-back of
-the lock entries (characters) and `hypV` -/
+driver evaluates (`order = ownNames`): the only hypotheses left besides `unlisted` are distinct ids and the read-back of
+the lock entries (characters) -/
 theorem relock_unlisted_exact_provides_driver_partial (c : Cfg) (w : List Text) (dq0 : List Nat) (r : Resolution)
     (hc : c.order = ownNames c.u) (hres : resolve c w dq0 = .ok r) (hids : C02.IdsDistinct c.u)
-    (hread : EntriesReadBack w r.install) (hv : hypV r.install)
+    (hread : EntriesReadBack w r.install)
     (hcls : relockClass c.u w r.install = "unlisted") :
     ∃ r', resolve c (lockOf w r.install) [] = .ok r' ∧ sameMembers r'.install r.install :=
   relock_unlisted_exact_provides_partial c w dq0 r hres hids hread
-    (fun q hq => by rw [hc]; exact ownNames_knows c.u q (C02.resolve_subset c w dq0 r hres q hq)) hv hcls
+    (fun q hq => by rw [hc]; exact ownNames_knows c.u q (C02.resolve_subset c w dq0 r hres q hq)) hcls
+
+/-- T `relock_classes_complete`: `RelockClassesComplete` (Proofs/C09.lean) HOLDS — for every universe with distinct ids
+(provides, virtual names, pinned repositories, install_if: any), every world, every initial disqualification set and
+every provider order that knows the packages: if the resolution succeeds and the driver's classifier answers `unlisted`,
+the lock `unify` emits for it re-resolves, to exactly the same set.  So on the model a failing round trip outside the
+finding classes F09a–F09o is impossible; with Go = Impl (the correspondence of every run) a failing round trip of the
+real code outside the classes is reported as a violation, never absorbed.  (install_if universes are all in class F09c.) -/
+theorem relock_classes_complete : RelockClassesComplete := by
+  intro c w dq0 r hres hids horder hread hcls
+  exact relock_unlisted_exact_provides_partial c w dq0 r hres hids hread
+    (fun q hq => horder q (C02.resolve_subset c w dq0 r hres q hq)) hcls
 
 end Apko.C09
